@@ -540,6 +540,15 @@ class FnTranslator:
             return self.binop(n.op, a, b, t, n), t
         if isinstance(n, ast.Subscript):
             return self.subscript(n, env)
+        if isinstance(n, ast.List):
+            if not n.elts:
+                raise self.err("empty list literal (its element type is not determined)", n)
+            parts = [self.expr(e, env) for e in n.elts]
+            t0 = next((t for _, t in parts if not is_lit(t)), None)
+            if t0 is None:
+                raise self.err("list literal of bare numeric literals (its element type is not determined)", n)
+            codes = [self.coerce(c, t, t0, n)[0] for c, t in parts]
+            return "[%s]" % "; ".join(codes), ("list", t0)
         if isinstance(n, ast.ListComp):
             if len(n.generators) != 1 or n.generators[0].ifs or getattr(n.generators[0], "is_async", 0):
                 raise self.err("comprehension with a condition / several generators", n)
@@ -701,6 +710,8 @@ class FnTranslator:
         shadow = f.split(".")[0]
         if shadow in env and env[shadow] != "obj":
             raise self.err("call through the local name %r" % shadow, n)
+        if f in getattr(self, "shadowed_builtins", ()):
+            raise self.err("the module rebinds the builtin %r (import / definition / star import)" % f, n)
         if f == "len" and len(args) == 1:
             a, t = self.expr(args[0], env)
             if not (isinstance(t, tuple) and t[0] == "list"):
@@ -1081,6 +1092,20 @@ class FnTranslator:
     def for_(self, s, rest, env, ctx, k):
         if s.orelse:
             raise self.err("for ... else", s)
+        for nd in ast.walk(s.iter):
+            if isinstance(nd, ast.Call) and dotted(nd.func) in getattr(self, "shadowed_builtins", ()):
+                raise self.err("the module rebinds the builtin %r" % dotted(nd.func), nd)
+        # the iterated list must not be rebound / appended to by the body (the fold runs over its value at entry)
+        iter_names = set()
+        for nd in ast.walk(s.iter):
+            if isinstance(nd, ast.Name):
+                iter_names.add(nd.id)
+            k_ = attr_key(nd) if isinstance(nd, (ast.Attribute, ast.Subscript)) else None
+            if k_ and "." in k_:
+                iter_names.add(attr_var(k_))
+        clash = iter_names & set(assigned_names(s.body))
+        if clash:
+            raise self.err("the loop body assigns / appends to %s, which the loop iterates over" % sorted(clash), s)
         if has_node(s.body, (ast.Break,)):
             raise self.err("break", s)
         (lst, et, pat, bound, idx, safe), pre = self.with_pre(lambda: self.iter_spec(s.iter, s.target, env))
@@ -1137,8 +1162,10 @@ class FnTranslator:
         body_app = "(%s)" % " ".join([loop.body_name] + [mangle(v) for v in params]) if params else loop.body_name
         repack = "".join("let %s := %s %s in\n" % (mangle(v), loop.proj("v%d" % (i + 1)), st) for i, (v, _) in enumerate(carried))
         after = self.block(rest, dict(env), ctx, k)
-        after_body = "match %s %s with\n| Some r => %s\n| None =>\n%s\nend" % (
-            loop.proj("ret"), st, ctx.ret_opt("r", env), textwrap.indent(repack + after, "  "))
+        # the carried locals are read back from the final state before the match: a `return` inside the
+        # loop may propagate into an enclosing loop's state, which is built from the current locals
+        after_body = "%smatch %s %s with\n| Some r => %s\n| None =>\n%s\nend" % (
+            repack, loop.proj("ret"), st, ctx.ret_opt("r", env), textwrap.indent(after, "  "))
         toks = tokens(after_body)
         aparams = [v for v in env if env[v] not in ("obj", "fixed") and v not in body_assigned and mangle(v) in toks]
         after_name = "%s_l%d_after" % (self.base, loop.k)
@@ -1326,6 +1353,46 @@ def find_function(tree, cls, name, path):
     return fns[0]
 
 
+INTERPRETED_BUILTINS = ("len", "abs", "min", "max", "float", "tuple", "zip", "enumerate", "range", "list", "map")
+SAFE_STAR_IMPORTS = ("abc",)          # modules known not to export a name of INTERPRETED_BUILTINS
+
+
+def module_shadows(tree, cls):
+    """builtin names the translator gives a meaning to that the module (or the class body) rebinds"""
+    bound = set()
+
+    def scan(body):
+        for n in body:
+            if isinstance(n, (ast.FunctionDef, ast.AsyncFunctionDef, ast.ClassDef)):
+                bound.add(n.name)
+            elif isinstance(n, ast.Import):
+                for a in n.names:
+                    bound.add((a.asname or a.name).split(".")[0])
+            elif isinstance(n, ast.ImportFrom):
+                for a in n.names:
+                    if a.name == "*":
+                        if (n.module or "") not in SAFE_STAR_IMPORTS:
+                            bound.update(INTERPRETED_BUILTINS)       # unknown: assume the worst
+                    else:
+                        bound.add(a.asname or a.name)
+            elif isinstance(n, (ast.Assign, ast.AugAssign, ast.AnnAssign)):
+                for t in (n.targets if isinstance(n, ast.Assign) else [n.target]):
+                    for m in ast.walk(t):
+                        if isinstance(m, ast.Name):
+                            bound.add(m.id)
+            elif isinstance(n, (ast.If, ast.Try, ast.With, ast.For, ast.While)):
+                for fld in ("body", "orelse", "finalbody"):
+                    scan(getattr(n, fld, []) or [])
+                for h in getattr(n, "handlers", []) or []:
+                    scan(h.body)
+    scan(tree.body)
+    if cls:
+        for n in tree.body:
+            if isinstance(n, ast.ClassDef) and n.name == cls:
+                pass        # class attributes are reached through self/cls only, never as bare names
+    return bound & set(INTERPRETED_BUILTINS)
+
+
 def function_source(src_lines, node):
     start = min([node.lineno] + [d.lineno for d in node.decorator_list])
     return textwrap.dedent("".join(src_lines[start - 1:node.end_lineno]))
@@ -1442,6 +1509,7 @@ def translate_spec(repo, spec):
         else:
             ft = FnTranslator(spec["module"], cls or None, name, fspec, node, done)
             what = "%s.%s" % (cls or "<module>", name)
+        ft.shadowed_builtins = module_shadows(tree, cls)
         parts.append("(* %s, lines %d-%d of %s, sha1 %s *)\n%s" % (
             what, node.lineno, node.end_lineno, spec["source"], hashlib.sha1(fs.encode()).hexdigest(), ft.translate()))
         done[key] = ft
